@@ -129,7 +129,7 @@ func runC11(c *Ctx) {
 	ruleNoCrossFilePositionOrder(c, "C11.11")
 	ruleGenerateOncePerFile(c, "C11.12")
 	rulePreviousOutputsOfEveryFile(c, "C11.13")
-	ruleWhoMayCall(c, "C11.14", "(*InjectorParam).Name", "a value gets its name when the code that mentions it is emitted (first come, first served in emission order): nothing outside the emission - logging, validation - asks for names, or the output would depend on whether that code ran", "Generate", "(*InjectorProviderCallStmt).Stmt", "(*InjectorFieldAccessStmt).Stmt", "(*InjectorChainStmt).Stmt", "(*InjectorParam).ChannelName")
+	ruleWhoMayCallReach(c, "C11.14", "(*InjectorParam).Name", "a value gets its name when the code that mentions it is emitted (first come, first served in emission order): nothing outside the emission - logging, validation - asks for names, or the output would depend on whether that code ran", "Generate", "(*InjectorProviderCallStmt).Stmt", "(*InjectorFieldAccessStmt).Stmt", "(*InjectorChainStmt).Stmt", "(*InjectorParam).ChannelName")
 	ruleOutputOpenedLast(c, "C11.10")
 
 	// ---- C11.4 deterministic field order
